@@ -239,9 +239,9 @@ def sim_ops(draw, fmt):
 @st.composite
 def boundary_constructions(draw, fmt):
     """one simfile whose note data (or one value) carries an escaped-on-save token exactly on a multiple of 4096 / 65536"""
-    k = draw(st.sampled_from([1, 2, 16, 16, 32]))
-    back = draw(st.integers(-1, 3))
-    tok = draw(st.sampled_from(["//", "//", "//", ":", ";", "\\"]))
+    k = draw(st.sampled_from([1, 2, 16, 16, 16, 32]))
+    back = draw(st.sampled_from([1, 1, 0, 2, -1, 3]))
+    tok = draw(st.sampled_from(["//", "//", "//", "//", ":", ";", "\\"]))
     body = "0" * max(0, k * 4096 - back) + tok + draw(st.sampled_from(["", "0", "\n0000"]))
     body = msdgap.safe_text(body).strip()
     where = draw(st.sampled_from(["notes", "notes", "value"]))
